@@ -816,7 +816,7 @@ class C11(Prop):
                         m = RE_TAG_OPEN.match(text)
                         ok = bool(m) and text[m.end():].startswith(name) and text.endswith("%}")
                     else:  # a line statement
-                        ok = text.startswith(name) and "\n" not in text.rstrip("\n") and "%}" not in text
+                        ok = text.startswith(name) and "\n" not in text.rstrip("\n")
                 if not ok:
                     res.fail("O3-spans", f"span-tag:{name}",
                              f"tag {name!r} reported at {sp.template_name!r}[{sp.start}:{sp.end}] = {text!r}; {ctxinfo}")
